@@ -432,7 +432,7 @@ package rsm
 // after applying a snapshot of an on-disk SM the on-disk index is the snapshot's; an imported
 // snapshot applied on initial recovery also resets the "already in the SM" watermark to it, so
 // that entries after the snapshot are applied (not skipped as already present)
-//@ func (s *StateMachine) applyOnDisk [C08 C11]
+//@ func (s *StateMachine) applyOnDisk [C08 C11 C20]
 //@ modifies s.onDiskIndex, s.onDiskInitIndex
 //@ ensures s.onDiskSM && s.onDiskIndex == ss.OnDiskIndex
 //@ ensures ss.Imported && init ==> s.onDiskInitIndex == ss.OnDiskIndex
